@@ -104,7 +104,10 @@ def tags_of(ast: list) -> set[str]:
                 if body:
                     last = body[-1]
                     if last[0] in ("and", "or"):
-                        tags.add("E1")
+                        ends = {b[-1][1] if b and b[-1][0] == "ev" else None for b in last[1]}
+                        # all branches of the closing fork end in one and the same event type:
+                        # a different situation for the learner (counts > 1), see same_end()
+                        tags.add("E1-same-end" if len(ends) == 1 and None not in ends else "E1")
                     elif last[0] == "loop" and _contains(last[1], ("break",)):
                         tags.add("E2")
                     elif last[0] == "xor":
@@ -328,6 +331,49 @@ def random_edge(rng: random.Random, kind: str | None = None) -> tuple[list, str]
         if kind in t:
             return ast, kind
     raise RuntimeError("could not generate edge definition " + kind)
+
+
+def same_end(ast: list, rng: random.Random) -> list | None:
+    """Beyond fragment F: give the last event of EVERY branch of one AND/OR fork the same new
+    event type (an event type then follows/precedes with counts > 1 and the learner emits
+    branch counts).  Used by C05 only, judged on well-formedness and names.  None when no
+    fork qualifies."""
+    import copy
+    ast = copy.deepcopy(ast)
+    forks: list = []
+
+    def walk(seq: list) -> None:
+        for st in seq:
+            if st[0] in ("and", "or", "xor"):
+                if st[0] in ("and", "or") and all(b and b[-1][0] == "ev" for b in st[1]):
+                    forks.append(st)
+                for b in st[1]:
+                    walk(b)
+            elif st[0] == "loop":
+                walk(st[1])
+    walk(ast)
+    if not forks:
+        return None
+    f = rng.choice(forks)
+    for b in f[1]:
+        b[-1] = ("ev", "SAME")
+    return ast
+
+
+def random_same_end(rng: random.Random) -> list:
+    for _ in range(2000):
+        if rng.random() < 0.5:
+            base = random_core(rng)
+        else:
+            base, _k = random_edge(rng, "E1")
+        t = same_end(base, rng)
+        if t is None:
+            continue
+        tg = tags_of(t)
+        if tg & {"E1", "E2", "E3"}:
+            continue            # keep the recorded F_edge findings out of this stratum
+        return t
+    raise RuntimeError("could not generate same-end definition")
 
 
 def exhaustive_small() -> list[list]:
